@@ -7,6 +7,9 @@ package storage
 import (
 	"sort"
 
+	"github.com/marekgalovic/anndb/storage/raft"
+	"github.com/marekgalovic/anndb/storage/wal"
+
 	"github.com/marekgalovic/anndb/index"
 	pb "github.com/marekgalovic/anndb/protobuf"
 	uuid "github.com/satori/go.uuid"
@@ -14,6 +17,8 @@ import (
 
 var _ index.Metadata
 var _ sort.Interface
+var _ *raft.RaftGroup
+var _ wal.WAL
 var _ *pb.BatchItem
 var _ uuid.UUID
 
@@ -693,4 +698,26 @@ var _ uuid.UUID
 //@ ensures [unreachable-owner] dialFailed == 1 ==> !isnil(ret)
 //@ ensures [rpc-error] rpcFailed == 1 ==> !isnil(ret)
 //@ ensures [exactly-one-route] isnil(ret) ==> proposals + rpcs == 1
+//@ modifies *
+
+// ---------------------------------------------------------------------------------------------
+// C05: who may bootstrap a raft group. loadRaft with a non-empty peer list means etcd StartNode (a brand-new log at term 1).
+
+//@ func (*storage.partition).loadRaft
+//@ props C05
+//@ safety C12
+//@ requires [C05 fresh-storage] len(nodeIds) > 0 ==> freshStorage(this.wal)
+//@ requires [wf] this.raftMu != nil && this.log != nil
+//@ modifies *
+
+//@ func (*storage.partition).unloadRaft
+//@ props C05 C06
+//@ assume
+//@ modifies *
+
+// the allocator loop: a watched partition assigned to this node gets its raft group loaded
+//@ func (*storage.Allocator).run
+//@ props C05
+//@ safety C12
+//@ requires [wf] this.clusterConn != nil
 //@ modifies *
